@@ -152,9 +152,10 @@ def run(ck):
     else:
         ck.analysed(um['path'])
         m = next((n for n in walk(um['body']) if n.get('k') == 'Match'), None)
-        arms = {pp(a['pat'], maxlen=60): a for a in (m['arms'] if m else [])}
-        uq = next((a for p, a in arms.items() if 'Unique' in p), None)
-        ov = next((a for p, a in arms.items() if 'Overloaded' in p), None)
+        arms = [(pp(a['pat'], maxlen=60), a) for a in (m['arms'] if m else [])]
+        ck.ob('R13.3', 'two-plain-arms', len(arms) == 2 and not any('guard' in a for p, a in arms), L.loc(m) if m else L.loc(um['body']), 'arms: %s' % [p + (' if ..' if 'guard' in a else '') for p, a in arms])
+        uq = next((a for p, a in arms if 'Unique' in p), None)
+        ov = next((a for p, a in arms if 'Overloaded' in p), None)
         ok = uq is not None and [pp(v) for v in H.value_exprs(uq['body'])] == ['Some(%s)' % H.pat_bindings(uq['pat'])[0]['name']]
         ck.ob('R13.3', 'unique-taken-as-is', ok, L.loc(uq) if uq else L.loc(um['body']), 'MethodMatches::Unique(m) => Some(m)')
         if ov is not None:
